@@ -174,19 +174,25 @@ def oracle(c, draws_log):
     res = {'near': False, 'undefined': 0}
 
     def supra(Xp, Yp):
-        t = tail_stat(tstats(Xp, Yp, paired), tail)
+        """suprathreshold edges under (a) the statistic itself (scipy: +-inf for zero pooled variance with different means) and
+        (b) the convention coded in bct's two-sample test (`denom == 0 -> t = 0`) -> (E, E_conv, t, has_inf)"""
+        t0 = tstats(Xp, Yp, paired)
+        t = tail_stat(t0, tail)
         fin = np.isfinite(t)
         if np.any(np.abs(t[fin] - thr) < NEAR):
             res['near'] = True
         res['undefined'] += int(np.isnan(t).sum())
+        inf = np.isinf(t0) & (not paired)
+        tc = np.where(inf, 0.0, t)
         with np.errstate(all='ignore'):
-            return [(int(iu[0][e]), int(iu[1][e])) for e in np.nonzero(t > thr)[0]], t
-    E, t_obs = supra(X, Y)
-    res['E'] = E
+            E = [(int(iu[0][e]), int(iu[1][e])) for e in np.nonzero(t > thr)[0]]
+            Ec = [(int(iu[0][e]), int(iu[1][e])) for e in np.nonzero(tc > thr)[0]]
+        return E, Ec, t, bool(inf.any())
+    E, Ec, t_obs, _ = supra(X, Y)
+    res['E'] = E; res['E_conv'] = Ec
     res['nan_cells'] = [(int(iu[0][e]), int(iu[1][e])) for e in np.nonzero(np.isnan(t_obs))[0]]
     res['inf_cells'] = [(int(iu[0][e]), int(iu[1][e])) for e in np.nonzero(np.isinf(t_obs))[0]]
-    res['comps'] = comps_of(n, E)
-    null = []
+    null, null_conv, null_inf = [], [], []
     D = np.hstack((X, Y))
     for ent in draws_log:
         if paired:
@@ -196,9 +202,11 @@ def oracle(c, draws_log):
             p = np.array(ent)
             Dp = D[:, p]
             Xp, Yp = Dp[:, :nx], Dp[:, nx:]
-        Ep, _ = supra(Xp, Yp)
+        Ep, Epc, _, hasinf = supra(Xp, Yp)
         null.append(max([len(es) for (_, es) in comps_of(n, Ep)] + [0]))
-    res['null'] = null
+        null_conv.append(max([len(es) for (_, es) in comps_of(n, Epc)] + [0]))
+        null_inf.append(hasinf)
+    res['null'] = null; res['null_conv'] = null_conv; res['null_inf'] = null_inf
     return res
 
 
@@ -225,10 +233,13 @@ def run_case(c):
     F = out['fails']
     rec = Recorder(c['seed'])
     x0, y0 = x.copy(), y.copy()
-    st, v = call(bct.nbs_bct, x, y, thr, k=k, tail=tail, paired=paired, seed=rec, t=120.0)
+    st, v = call(bct.nbs_bct, x, y, thr, k=k, tail=tail, paired=paired, seed=rec, t=30.0)
+    if st == 'timeout':      # a single wall-clock hit on a loaded machine is not a verdict: once more, fresh recorder, 10x budget
+        rec = Recorder(c['seed'])
+        st, v = call(bct.nbs_bct, x, y, thr, k=k, tail=tail, paired=paired, seed=rec, t=300.0)
     out['status'] = st
-    if st == 'timeout':      # nbs_bct is a bounded loop: no return within 120 s on <= 6 nodes / k <= 50 is a failure
-        F.append(('returns-within-budget', {'budget_s': 120.0}, {'degenerate_two_sample': False}))
+    if st == 'timeout':      # nbs_bct is a bounded loop: no return within 30 s, nor within 300 s on the retry, on <= 6 nodes / k <= 50 is a failure
+        F.append(('returns-within-budget', {'budget_s': 300.0}, {'degenerate_two_sample': False, 'degenerate_two_sample_null': False}))
         return out
     line = 'nbs n=%d nx=%d ny=%d x=%s y=%s thr=%s tail=%s paired=%d k=%d draws=%s' % (
         n, nx, ny, mat_str(c['x']), mat_str(c['y']), frac_str(thr), tail, int(paired), k, ','.join(str(d) for d in rec.flat()) or '-')
@@ -243,9 +254,12 @@ def run_case(c):
         out['skipped'] = True
         return out
     out['line'] = line
-    # edges on which the statistic is +-inf in the two-sample test (pooled variance 0, different means): bct's `denom == 0 -> 0`
-    degenerate = (not paired) and len(orc['inf_cells']) > 0
-    cond = {'degenerate_two_sample': bool(degenerate)}
+    # Known defect (known_findings.d/C19.json): in the two-sample test an edge that is constant within each group with different group
+    # means has t = +-inf, bct's `denom == 0 -> 0` gives 0.  A failure is attributed to it only if the real output equals what the
+    # oracle predicts under exactly that convention (E_conv / null_conv) and differs from the true one only through +-inf cells.
+    E_true, E_conv = orc['E'], orc['E_conv']
+    obs_degenerate = (not paired) and set(E_true) != set(E_conv)
+    NO = {'degenerate_two_sample': False, 'degenerate_two_sample_null': False}
     if thr < 0 and orc['nan_cells']:
         # 0/0 statistic with a negative threshold: the statistic is undefined, no claim on those cells (bct uses 0 / nan)
         out['status'] = 'noclaim'
@@ -254,20 +268,29 @@ def run_case(c):
     if st == 'exc':
         kind = exc_kind(v)
         out['expected'] = 'error=' + kind
-        if kind == 'BCTParamError' and not orc['E']:
+        if kind == 'BCTParamError' and 'Unsuitable threshold' in v and not E_true:
             return out                                    # documented rejection: no suprathreshold edge
-        F.append(('raises', {'exception': v, 'oracle_edges': orc['E']}, cond))
+        known = obs_degenerate and kind == 'BCTParamError' and 'Unsuitable threshold' in v and not E_conv
+        F.append(('raises', {'exception': v, 'oracle_edges': E_true, 'inf_cells': orc['inf_cells']}, dict(NO, degenerate_two_sample=bool(known))))
         return out
     pvals, adj, null = v
     pvals = np.asarray(pvals, dtype=float); adj = np.asarray(adj, dtype=float); null = np.asarray(null, dtype=float)
     out['expected'] = expected_line(st, v, k)
     # ---- support
-    S = np.zeros((n, n), dtype=bool)
-    for (i, j) in orc['E']:
-        S[i, j] = S[j, i] = True
-    if adj.shape != (n, n) or not np.array_equal(adj != 0, S):
-        F.append(('support', {'adj': adj.tolist(), 'oracle_edges': orc['E'], 'inf_cells': orc['inf_cells']}, cond))
-        return out
+    def smat(E):
+        S = np.zeros((n, n), dtype=bool)
+        for (i, j) in E:
+            S[i, j] = S[j, i] = True
+        return S
+    E_use = E_true
+    if adj.shape != (n, n) or not np.array_equal(adj != 0, smat(E_true)):
+        known = obs_degenerate and adj.shape == (n, n) and np.array_equal(adj != 0, smat(E_conv))
+        F.append(('support', {'adj': adj.tolist(), 'oracle_edges': E_true, 'inf_cells': orc['inf_cells']}, dict(NO, degenerate_two_sample=bool(known))))
+        if not known:
+            return out
+        E_use = E_conv          # go on: labels, p-values, null and the symmetries are still judged, relative to the marked support
+    cond = dict(NO)
+    orc['comps'] = comps_of(n, E_use)
     if not np.array_equal(adj, adj.T):
         F.append(('adj-symmetric', {'adj': adj.tolist()}, cond))
     # ---- labels up to renaming
@@ -294,8 +317,16 @@ def run_case(c):
             F.append(('pvals', {'label': int(lab), 'size': size, 'pval': float(pvals[int(lab) - 1]), 'expected': want, 'null': null.tolist()}, cond))
             break
     # ---- null values = largest component under each recorded relabelling
-    if len(logs) != k or not np.array_equal(null, np.array(orc['null'], dtype=float)):
-        F.append(('null', {'null': null.tolist(), 'oracle_null': orc['null'], 'permutations_recorded': len(logs)}, cond))
+    if len(logs) != k or null.shape != (k,):
+        F.append(('null', {'null': null.tolist(), 'permutations_recorded': len(logs)}, cond))
+    else:
+        on = np.array(orc['null'], dtype=float); oc = np.array(orc['null_conv'], dtype=float)
+        bad = np.nonzero(null != on)[0]
+        if len(bad):
+            # attributed to the known defect only if every deviating value is exactly the `denom == 0 -> 0` value of a relabelling that has a +-inf cell
+            known = (not paired) and all(orc['null_inf'][u] and null[u] == oc[u] for u in bad)
+            F.append(('null', {'null': null.tolist(), 'oracle_null': orc['null'], 'oracle_null_denom0_convention': orc['null_conv'],
+                               'deviating_permutations': [int(u) for u in bad]}, dict(NO, degenerate_two_sample_null=bool(known))))
     if not (np.array_equal(x, x0) and np.array_equal(y, y0)):
         F.append(('input-modified', {}, cond))
     # ---- symmetries of the observed components (k small: only adj is compared)
@@ -308,13 +339,13 @@ def run_case(c):
                     outa[i, j] = m.setdefault(a[i, j], len(m) + 1)
         return outa
     base = canon_adj(adj)
-    st2, v2 = call(bct.nbs_bct, y0.copy(), x0.copy(), thr, k=3, tail=SWAP[tail], paired=paired, seed=Recorder(1), t=60.0)
+    st2, v2 = call(bct.nbs_bct, y0.copy(), x0.copy(), thr, k=3, tail=SWAP[tail], paired=paired, seed=Recorder(1), t=30.0, retry=10)
     out['sym'] += 1
     if st2 != 'ok' or not np.array_equal(canon_adj(v2[1]), base):
         F.append(('group-swap', {'tail': tail, 'swapped_tail': SWAP[tail], 'adj': adj.tolist(), 'adj_swapped': v2[1].tolist() if st2 == 'ok' else str(v2)}, cond))
     prs = np.random.RandomState(c['seed'] % 65521)
     px = prs.permutation(nx); py = px if paired else prs.permutation(ny)
-    st3, v3 = call(bct.nbs_bct, x0[:, :, px].copy(), y0[:, :, py].copy(), thr, k=3, tail=tail, paired=paired, seed=Recorder(2), t=60.0)
+    st3, v3 = call(bct.nbs_bct, x0[:, :, px].copy(), y0[:, :, py].copy(), thr, k=3, tail=tail, paired=paired, seed=Recorder(2), t=30.0, retry=10)
     out['sym'] += 1
     if st3 != 'ok' or not np.array_equal(canon_adj(v3[1]), base):
         F.append(('subject-reorder', {'px': px.tolist(), 'py': py.tolist(), 'adj': adj.tolist(), 'adj_reordered': v3[1].tolist() if st3 == 'ok' else str(v3)}, cond))
